@@ -26,9 +26,7 @@ def generators():
         pass
     try:
         from . import facts
-        gens['Catalogue'] = facts.generate_catalogue
         gens['Forwarding'] = facts.generate_forwarding
-        gens['DbProg'] = facts.generate_dbprog
     except ImportError:
         pass
     try:
